@@ -75,7 +75,17 @@ def main():
             finally:
                 sh('git -C /repo revert --abort; git -C /repo reset -q --hard HEAD; git -C /repo checkout -- .')
     out = os.path.join(ROOT, f'selftest_{mode}_results.json')
-    json.dump(results, open(out, 'w'), indent=1, default=str)
+    # merge with earlier results (keyed by seeded id / (commit, property)): partial re-runs update their entries only
+    merged = {}
+    if os.path.exists(out):
+        try:
+            for r in json.load(open(out)):
+                merged[json.dumps(r[:2])] = r
+        except Exception:
+            merged = {}
+    for r in results:
+        merged[json.dumps(list(r[:2]), default=str)] = r
+    json.dump(list(merged.values()), open(out, 'w'), indent=1, default=str)
     print('written', out)
     assert repo_clean(), '/repo not restored!'
 
